@@ -796,7 +796,10 @@ func (f *ifn) userCall(c *ast.CallExpr, key string, args []ast.Expr, sc *iscope,
 // a condition as a decidable proposition
 func (f *ifn) cond(e ast.Expr, sc *iscope, pre *[]string) string {
 	t := f.t
-	isNil := func(x ast.Expr) bool { id, ok := x.(*ast.Ident); return ok && id.Name == "nil" && sc.lookup("nil") == nil }
+	isNil := func(x ast.Expr) bool {
+		id, ok := x.(*ast.Ident)
+		return ok && id.Name == "nil" && sc.lookup("nil") == nil
+	}
 	switch x := e.(type) {
 	case *ast.ParenExpr:
 		return f.cond(x.X, sc, pre)
